@@ -14,6 +14,11 @@ from . import solve
 def _init_worker():
     import signal
     signal.signal(signal.SIGINT, signal.SIG_IGN)
+    try:      # a solver that runs away ends as 'error' (undecided) instead of being OOM-killed, which would leave the pool waiting for ever
+        import z3
+        z3.set_param("memory_max_size", int(os.environ.get("PYVC_Z3_MEM_MB", "3500")))
+    except Exception:
+        pass
 
 
 def symexec_function(args):
@@ -56,6 +61,68 @@ def symexec_function(args):
         out["error"] = repr(ex) + "\n" + traceback.format_exc()
     out["symexec_s"] = round(time.time() - t0, 2)
     return out, obs_out
+
+
+def _refute_child(conn, fn, task, mem_bytes):
+    try:
+        import resource
+        resource.setrlimit(resource.RLIMIT_AS, (mem_bytes, mem_bytes))
+    except Exception:
+        pass
+    try:
+        import z3
+        z3.set_param("memory_max_size", int(mem_bytes // (1024 * 1024) * 3 // 4))
+    except Exception:
+        pass
+    try:
+        conn.send(fn(task))
+    except BaseException as ex:      # MemoryError included
+        try:
+            conn.send((task[0], {"__error__": "refute: " + repr(ex)[:300]}))
+        except Exception:
+            pass
+    finally:
+        conn.close()
+
+
+def _refute_isolated(ctx, fn, tasks, jobs, tier):
+    mem = int(float(os.environ.get("PYVC_REFUTE_MEM_GB", "6")) * 1024 ** 3)
+    wall = float(os.environ.get("PYVC_REFUTE_WALL", "100" if tier == "quick" else "900")) * 2 + 120
+    par = max(1, min(jobs, 8))
+    pending = list(tasks)
+    running = []
+    wit = {}
+    while pending or running:
+        while pending and len(running) < par:
+            t = pending.pop(0)
+            rd, wr = ctx.Pipe(duplex=False)
+            pr = ctx.Process(target=_refute_child, args=(wr, fn, t, mem), daemon=True)
+            pr.start()
+            wr.close()
+            running.append((pr, rd, t, time.time()))
+        still = []
+        for pr, rd, t, t0 in running:
+            got = None
+            if rd.poll(0.05):
+                try:
+                    got = rd.recv()
+                except (EOFError, OSError):
+                    got = (t[0], {"__error__": "refutation child died (memory limit %d GB or crash): no counter-model" % (mem // 1024 ** 3)})
+            elif not pr.is_alive():
+                got = (t[0], {"__error__": "refutation child died (memory limit %d GB or crash): no counter-model" % (mem // 1024 ** 3)})
+            elif time.time() - t0 > wall:
+                pr.terminate()
+                got = (t[0], {"__error__": f"refutation child stopped after {int(wall)}s: no counter-model"})
+            if got is None:
+                still.append((pr, rd, t, t0))
+            else:
+                wit[got[0]] = got[1]
+                pr.join(5)
+                if pr.is_alive():
+                    pr.kill()
+                rd.close()
+        running = still
+    return wit
 
 
 def run_functions(keys, sidecars=None, tier="quick", seed=0, jobs=None, repo=None, do_refute=True, log=None, only_tag=None):
@@ -126,10 +193,10 @@ def run_functions(keys, sidecars=None, tier="quick", seed=0, jobs=None, repo=Non
             bases = sorted({ob["base"] for ob in obs if ob["kind"] != "must_fail" and ob["status"] != "discharged"})
             if bases and do_refute and not out["unsupported"] and not out["error"]:
                 tasks.append((out["function"], bases, sidecars, tier, seed, repo))
-        wit = {}
-        if tasks:
-            for key, w in pool.imap_unordered(refute_function, tasks):
-                wit[key] = w
+    # phase 3 runs outside the solver pool: one isolated child per function with an address-space limit and a wall limit, so that a
+    # finite-scope search that explodes (it once took 64 GB and was OOM-killed, leaving the pool waiting for ever) ends as "no counter-model"
+    wit = _refute_isolated(ctx, refute_function, tasks, jobs, tier) if tasks else {}
+    if True:
         for out, obs in per_func:
             w = wit.get(out["function"], {})
             for ob in obs:
